@@ -97,14 +97,17 @@ SCENARIOS['S5d'] = {
     'prefix': ['x0', 'x1'],
     'alphabet': ['dA', 'n0', 'dB', 't', 't', 't'],
 }
+# S1 / S7 next to a second application object in the same process
+for _k in ('S1', 'S7'):
+    SCENARIOS[_k + 't'] = dict(SCENARIOS[_k], twin=True, phase2=False)
 # S2 / S7 with DEBUG logging of the library turned on
 for _k in ('S2', 'S7'):
     SCENARIOS[_k + 'g'] = dict(SCENARIOS[_k], debug_logging=True, phase2=False)
 # S2 with the Data packets arriving inside link-layer envelopes
 SCENARIOS['S2w'] = dict(SCENARIOS['S2'], packets={k: (dict(v, lp=True) if 'data' in v else v) for k, v in SCENARIOS['S2']['packets'].items()})
 
-LEN = {'quick': {'S1': 5, 'S2': 5, 'S3': 5, 'S3b': 5, 'S4': 5, 'S5': 5, 'S7': 5, 'S1p': 4, 'S4p': 4, 'S7p': 4, 'S2w': 4, 'S1m': 4, 'S7m': 4, 'S5d': 4, 'S2g': 3, 'S7g': 3},
-       'thorough': {'S1': 6, 'S2': 6, 'S3': 6, 'S3b': 6, 'S4': 6, 'S5': 6, 'S7': 6, 'S1p': 5, 'S4p': 5, 'S7p': 5, 'S2w': 5, 'S1m': 5, 'S7m': 5, 'S5d': 5, 'S2g': 4, 'S7g': 4}}
+LEN = {'quick': {'S1': 5, 'S2': 5, 'S3': 5, 'S3b': 5, 'S4': 5, 'S5': 5, 'S7': 5, 'S1p': 4, 'S4p': 4, 'S7p': 4, 'S2w': 4, 'S1m': 4, 'S7m': 4, 'S5d': 4, 'S2g': 3, 'S7g': 3, 'S1t': 3, 'S7t': 3},
+       'thorough': {'S1': 6, 'S2': 6, 'S3': 6, 'S3b': 6, 'S4': 6, 'S5': 6, 'S7': 6, 'S1p': 5, 'S4p': 5, 'S7p': 5, 'S2w': 5, 'S1m': 5, 'S7m': 5, 'S5d': 5, 'S2g': 4, 'S7g': 4, 'S1t': 4, 'S7t': 4}}
 DEV = {'quick': 1, 'thorough': 2}
 
 
@@ -239,6 +242,16 @@ class PitScenario:
         self.main = self.loop.create_task(self.app.main_loop())
         self.loop.drain()
         assert self.face.running
+        self.twin = None
+        if self.b.spec.get('twin') and self.fe.name == 'v2':
+            # a second application object in the same process, with a face of its own: it sends one Interest on a name the
+            # scenario uses and never hears anything; whatever happens to the first application is none of its business
+            face2 = HFace()
+            app2 = self.fe.make_app(face2)
+            main2 = self.loop.create_task(app2.main_loop())
+            self.loop.drain()
+            coro = self.fe.express(app2, enc.Name.from_str(self.b.interests[0]['name']), can_be_prefix=True, lifetime=1, nonce=4242)
+            self.twin = (app2, face2, main2, coro)
 
     def label_of(self, name, content):
         for label, rp in self.b.ref_packets.items():
@@ -366,6 +379,21 @@ class PitScenario:
                 obs['phase2_pit'] = trie_size(self.fe.pit(self.app))
             self.app.shutdown()
             loop.settle()
+        if self.twin is not None:
+            app2, face2, main2, coro = self.twin
+            res = {}
+
+            async def wait_twin():
+                try:
+                    await coro
+                    res['o'] = 'data'
+                except BaseException as e:  # noqa
+                    res['o'] = exc_class(e)
+            loop.create_task(wait_twin())
+            loop.settle()
+            obs['twin'] = (res.get('o'), len(face2.sent))
+            app2.shutdown()
+            loop.settle()
         obs['main_done'] = self.main.done()
         obs['main_exc'] = (type(self.main.exception()).__name__
                            if self.main.done() and not self.main.cancelled() and self.main.exception() else None)
@@ -439,6 +467,10 @@ def judge(sname, fe_name, run):
     if obs.get('phase1_pit') not in (None, 0) and obs['running']:
         viol.append((f'C03|{fe_name}|pit-not-empty', f"{obs['phase1_pit']} pending-Interest table node(s) remain after "
                                                        f"every Interest finished"))
+    if obs.get('twin') is not None and tuple(obs['twin']) != ('timeout', 1):
+        viol.append((f"C03|{fe_name}|second-application-affected|{obs['twin'][0]}",
+                     f"an Interest pending in a second application object (own face, nothing delivered to it) ended with {obs['twin'][0]} "
+                     f"after {obs['twin'][1]} packet(s) sent; it can only time out"))
     if obs.get('phase2_pit') not in (None, 0):
         viol.append((f'C03|{fe_name}|pit-not-empty-2', f"{obs['phase2_pit']} node(s) remain after second round"))
     if obs.get('redeliver_changed') or obs.get('redeliver_sent'):
